@@ -16,6 +16,7 @@ def parseObs? (toks : List String) : Option Obs :=
   | ["close", i] => do pure (.close (← parseNat? i))
   | ["getpanic"] => some (.bad "Get/panic")
   | ["geterr"] => some (.bad "Get/error")
+  | ["getunimpl"] => some (.bad "Get/unimplemented")
   | ["updpanic"] => some (.bad "Update/panic")
   | ["openerr"] => some (.bad "Pull/open-failed")
   | ["ended", _] => some (.bad "Pull/stream-ended")
